@@ -448,6 +448,11 @@ def gen_meta(rng, name, tier):
         else:
             if m.get('NFFT') is not None and m['NFFT'] < m['n']:
                 m['n'] = m['NFFT']
+            if not m.get('complex') and m['n'] < N:
+                # a REAL sinusoid peaks on its bin only when the record holds whole periods: with a
+                # zero-padded short record the +k0 / -k0 kernels overlap and shift the maximum
+                # (false alarm seen at n=4, NFFT=13, k0=1) -- the real-signal probe uses n = N
+                m['n'] = N
             hi = N - 1 if (m.get('complex') and CALLS[name][1] in ('two', 'shift')) else (N - 1) // 2
             m['k0'] = rng.randint(1, max(1, hi))
     return m
